@@ -64,7 +64,7 @@ static void* xalloc(size_t n) { void* p = malloc(n ? n : 1); if (!p) { fprintf(s
 static const octet* smCtr(const void* st) { return (const octet*)st + 64; }
 
 static const size_t CMD_CDF[] = {0, 1, 255, 256, 300};
-static const size_t CMD_RDF[] = {0, 1, 255, 256, 257, 65535, 65536};
+static const size_t CMD_RDF[] = {0, 1, 255, 256, 257, 65535, 65536, 258, 4660, 65280};   /* incl. values whose octets differ (0x0102, 0x1234, 0xFF00) */
 static const size_t RESP_RDF[] = {0, 1, 255, 256, 300};
 #define N_CDF (sizeof(CMD_CDF) / sizeof(CMD_CDF[0]))
 #define N_RDF (sizeof(CMD_RDF) / sizeof(CMD_RDF[0]))
@@ -711,6 +711,18 @@ int cvcMain(int argc, char** argv)
 				rv = btokCVCVal(x, n1, cert0, n0, 0);
 				rv2 = btokCVCVal2(0, x, n1, c0, 0);
 				jStr("rck", errName(rk)); jStr("rcv", errName(rv)); jStr("rcv2", errName(rv2)); jEnd();
+				free(x);
+			}
+			/* the self-signed root, read in the documented self-check mode (btok.h: pubkey == cvc->pubkey, pubkey_len == 0:
+			   the signature is verified on the public key of the certificate itself) */
+			for (pos = 0; pos <= n0; ++pos)
+			{
+				int mask = small ? 1 : 1 << vxRandN(8); err_t rs; octet* x = (octet*)xalloc(n0);
+				memcpy(x, cert0, n0); if (pos < n0) x[pos] ^= (octet)mask; else mask = 0;
+				memset(got, 0xA5, sizeof(*got));
+				rs = btokCVCUnwrap(got, x, n0, got->pubkey, 0);
+				jBegin(); jStr("e", "Op"); jStr("op", "cvcAltSelf"); jInt("L", (long long)root.len); jInt("pos", (long long)pos + 1); jInt("mask", mask);
+				jOct("cert", x, n0); jOct("orig", cert0, n0); jStr("rcs", errName(rs)); jEnd();
 				free(x);
 			}
 			free(cert0); free(cert1);
